@@ -216,11 +216,20 @@ impl<'a> Planner<'a> {
                 .iter()
                 .all(|input_id| resolved_values.contains(*input_id));
 
+            // Values captured by the operator's subgraphs from an outer graph,
+            // rather than from this graph, are not available here.
+            let all_captures_in_graph = op_node
+                .capture_names()
+                .all(|name| self.graph.get_node_id(name).is_some());
+
             // Prune op if:
             //
             // - The output varies on each run (`Random*`)
             // - We are missing a required input
-            let prune_op = !op_node.operator().is_deterministic() || !all_inputs_available;
+            // - We are missing a value captured by the operator's subgraphs
+            let prune_op = !op_node.operator().is_deterministic()
+                || !all_inputs_available
+                || !all_captures_in_graph;
 
             if prune_op {
                 for input_id in all_inputs {
